@@ -9,7 +9,8 @@ META = dict(
          "the fixpoint.  After every transition the real tree (walked through Store.shares) must equal the model tree: same paths, same kinds, at every "
          "path the identical object that was most recently placed there, every name equal to its dotted path; a rejected operation must leave "
          "the tree identical; and fetch / fetchShare / fetchNode over the whole alphabet plus one level below every share must return exactly that "
-         "object or None.",
+         "object or None.  Lookups under every dotted spelling (p, .p, p., .p.) are part of every history: the battery runs after every operation, "
+         "so a replaced or added object is looked up before and after the change under each spelling, and all spellings must give the identical object.",
     note="A name is compared modulo leading/trailing dots (Store.add keeps the caller's Share.name, e.g. '.a'); which exception a rejection raises is "
          "not compared; addNode on an existing node returns it (no rejection demanded).",
 )
@@ -263,6 +264,16 @@ def lookups(real, model, paths, judge):
                 else:
                     why = "returns None" if got is None else "returns another object"
                 judge("%s|%s" % (meth, why), "s.%s(%r) returned %r, model: %r" % (meth, p, got, e))
+        e = model.lookup(p, "share")
+        if e:                         # create of an existing share is a lookup too: it must hand back that very object
+            n += 1
+            try:
+                got = s.create(p)
+            except Exception as ex:
+                judge("create(existing)|raises %s" % type(ex).__name__, "s.create(%r) raises %r although the share exists" % (p, ex))
+                continue
+            if got is not real.bound.get(e[1]):
+                judge("create(existing)|returns another object", "s.create(%r) returned %r, which is not the share the tree holds at that path" % (p, got))
     return n
 
 
@@ -275,11 +286,30 @@ def canon(real):
     return tuple(out)
 
 
-def build(storing, hist):
+def touch(real, lookup_paths, model=None):
+    """the lookup battery without judging: lookups are part of every history (issued after the store is made and
+    after every operation), so that anything a lookup leaves behind in the store is there when the next operation runs"""
+    s = real.store
+    for p in lookup_paths:
+        for meth in (s.fetch, s.fetchShare, s.fetchNode):
+            try:
+                meth(p)
+            except Exception:
+                pass
+        if model is not None and model.lookup(p, "share"):
+            try:
+                s.create(p)
+            except Exception:
+                pass
+
+
+def build(storing, hist, lookup_paths=()):
     real = Real(storing)
     model = init_model(real)
+    touch(real, lookup_paths, model)
     for i, (verb, path) in enumerate(hist):
         ok, model, _ = step(real, model, verb, path, i + 1)
+        touch(real, lookup_paths, model)
     return real, model
 
 
@@ -289,7 +319,14 @@ def explore(arg):
     from ioflo.base import storing
     part = core.Part()
     paths = PATHS_QUICK + (PATHS_MORE if tier == "thorough" else [])
-    lookup_paths = paths + [p + ".value" for p in ("a", "a.b", "a.b.c", "a.c", "b", "time", ".a.", "meta")] + ["a.value.x", "zz", "a.zz"]
+    lookup_paths = list(paths)
+    for p in paths:                       # every dotted spelling of every path of the alphabet
+        c = p.strip(".")
+        if c and ".." not in c:
+            for sp in (c, "." + c, c + ".", "." + c + "."):
+                if sp not in lookup_paths:
+                    lookup_paths.append(sp)
+    lookup_paths += [p + ".value" for p in ("a", "a.b", "a.b.c", "a.c", "b", "time", ".a.", "meta")] + ["a.value.x", "zz", "a.zz"]
     ops = [(v, p) for v in VERBS for p in paths]
 
     def judge_for(hist):
@@ -298,11 +335,13 @@ def explore(arg):
         def judge(group, msg):
             part.violation(group, text, "after [%s]: %s" % (text, msg),
                            dict(history=[op_text(v, p) for v, p in hist],
-                                how="from ioflo.base.storing import Store, Share; Store.Clear(); s = Store(stamp=0.0); then the history lines",
+                                how="from ioflo.base.storing import Store, Share; Store.Clear(); s = Store(stamp=0.0); then the history lines; after the "
+                                    "constructor and after every line call s.fetch(p), s.fetchShare(p), s.fetchNode(p) (and s.create(p) where a share exists) for every p in lookup_paths",
+                                lookup_paths=lookup_paths,
                                 detail=msg))
         return judge
 
-    real, model = build(storing, [])
+    real, model = build(storing, [], lookup_paths)
     part.traces += 1
     part.evaluations += lookups(real, model, lookup_paths, judge_for([]))
     seen = {canon(real)}
@@ -311,7 +350,7 @@ def explore(arg):
     while frontier:
         hist = frontier.popleft()
         for op in ops:
-            real, model = build(storing, hist)
+            real, model = build(storing, hist, lookup_paths)
             h2 = hist + (op,)
             judge = judge_for(h2)
             ok, m2, got = step(real, model, op[0], op[1], len(h2), judge)
@@ -349,6 +388,9 @@ def run():
         "an empty segment (after stripping leading/trailing dots), an empty name, change of a missing share or of a node",
         "addNode / createNode on an existing node and create on an existing share return the existing object",
         "shares carry a field 'value' so that lookups one level below a share have something to find wrongly",
+        "the whole lookup battery (fetch, fetchShare, fetchNode, and create where the share exists, under every dotted spelling p, .p, p., .p. of every path) runs after the constructor and "
+        "after every operation of every history, before and after each add/change/create; dedupe is on the tree only, so a lookup is required to be "
+        "observationally pure - anything it leaves behind is exposed by the operations and lookups that follow in the same history",
     ]
     return ck.finish(
         rule="BFS to fixpoint over histories of %d verbs x path alphabet (%d paths quick, %d thorough) with dedupe on the real tree "
